@@ -226,9 +226,12 @@ def run(tier, seed):
             "merge_sources calls whose result was judged by the ast oracle; non-trivial = the merge inserted "
             ">= 1 annotation; distinct by hash of (program, stub)."))
   if tier == "quick":
-    nprog, per = 208, 13
+    nprog, per = 192, 12
   else:
-    nprog, per = 1280, 16
+    nprog, per = 2400, 25
+  if os.environ.get("VERIF_C20_NPROG"):      # development aid only
+    nprog = int(os.environ["VERIF_C20_NPROG"])
+    per = max(1, nprog // 16)
   tasks = []
   for lo in range(0, nprog, per):
     tasks.append({"fn": "vf.checks.c20:child", "id": f"b{lo}", "timeout": 1500,
